@@ -203,3 +203,58 @@ func GenStop(r *kit.Rand, id int, c Cfg, mode string) Scenario {
 	}
 	return sc
 }
+
+// RunCloseRace: the owner of the broker's queue/deque shuts it down right after
+// the last message: the dispatch workers are parked in Receive on the empty
+// container (observed), then the message is pushed and the container closed
+// back-to-back - inside the event loop (the tapped Send closes it right after
+// the push) or by the owner itself (push + Close). Whoever wins, a subscriber
+// may get that message or nothing, never a value nobody published.
+func RunCloseRace(sc Scenario, owner bool) Result {
+	r := NewRunner(sc.Cfg)
+	res := Result{Wild: true, NMsgs: 1}
+	nsub := 1 + sc.ID%2
+	for i := 0; i < nsub; i++ {
+		r.Subscribe(false)
+	}
+	value := 1 + sc.ID%50 // never the zero value
+	ok := r.Quiesce("close-race: workers parked")
+	if ok {
+		call := r.now()
+		if owner {
+			_ = r.Tap.back.push(value)
+			_ = r.Tap.back.close()
+		} else {
+			r.Tap.closeAfter.Store(int64(value))
+			ctx, cancel := bctx()
+			r.B.Publish(ctx, value)
+			cancel()
+		}
+		r.pmu.Lock()
+		r.Pubs = append(r.Pubs, PubRec{M: value, Pubr: 0, Call: call, Ret: r.now(), Returned: true})
+		r.pmu.Unlock()
+		// every worker finds the container closed and leaves
+		deadline := time.Now().Add(Bound)
+		for countWhere(snapshot(), false, "startQueueWorkers.func2") > 0 {
+			if time.Now().After(deadline) {
+				r.fail("C09:broker:stall:"+r.Cfg.Backend, "dispatch workers still running %v after the container was closed", Bound)
+				break
+			}
+			time.Sleep(100 * time.Microsecond)
+		}
+		for _, s := range r.Subs {
+			for len(s.ch) > 0 && time.Now().Before(deadline) {
+				time.Sleep(50 * time.Microsecond)
+			}
+			s.control("flush")
+		}
+	}
+	r.Stop(false)
+	r.WaitDone()
+	r.Finish(true)
+	res.Obs = r.Observations()
+	r.CheckC08(false)
+	res.Fails = r.Fails
+	res.Stopped = true
+	return res
+}
